@@ -282,16 +282,16 @@ func runFree(t *testing.T, m int, fn func() bool) runOut {
 // ---- realisation of a validity matrix with real keys and signatures ----
 
 type msWorld struct {
-	privs  []*keys.PrivateKey
-	pubs   [][]byte
-	bc     *core.Blockchain
-	net    uint32
-	tx     *transaction.Transaction
-	h      util.Uint256
-	h2     util.Uint256
-	sigs   map[int][]byte  // valid signature of h per key
-	verify map[string]bool // cache of real Verify results
-	nver   int
+	privs   []*keys.PrivateKey
+	pubs    [][]byte
+	bc      *core.Blockchain
+	net     uint32
+	tx      *transaction.Transaction
+	h       util.Uint256
+	h2      util.Uint256
+	sigs    map[int][]byte  // valid signature of h per key
+	verify  map[string]bool // cache of real Verify results
+	nver    int
 	sampled int
 }
 
